@@ -11,8 +11,9 @@
 //	         canonised and the number of distinct canonical graphs is observed
 //	mode r : refinement alone (hook graph.VerifRefine): the tokens are "cls=<classes>" ("-" = none,
 //	         else "0,3|1|2,4") and "picks=<k>,<k>,..." (indices into the first non-singleton
-//	         cell); the projected observation is the ordered partition after every refinement
-//	         and is compared with refine_run of the extracted model
+//	         cell); the projected observation is the ordered partition (cells as sets) after
+//	         every refinement and is compared with refine_run of the extracted model; the raw
+//	         order:dividers is the strict part
 //	tok    : a relabelling "p0,p1,...,p(n-1)" (the copy h has h(i,j) = g(p_i,p_j)), or "all"
 //	         (all n! relabellings), or "rand:<seed>:<count>" (count relabellings from splitmix64(seed))
 //
@@ -153,6 +154,158 @@ func (c *checker) relabelling(p []int, both bool, idx int) {
 			c.fail("noninvariant", p, "canonical graph of %s is %s but the copy relabelled by %v (sparse=%v) has canonical graph %s", c.g6, c.key0, p, sp, k)
 		}
 	}
+}
+
+// refineEquivariance checks on the implementation that the refinement depends only on the cell
+// structure: a relabelled copy of the graph with the relabelled classes (members in another
+// order) and the corresponding picks must give, after every refinement, cell by cell the image
+// of the partition of the original.  Returns "" or a description of the first difference.
+func refineEquivariance(g *cx.G, g6 string, cls [][]int, picks []int) string {
+	n := g.N
+	if n == 0 {
+		return ""
+	}
+	var seed uint64 = 1469598103934665603
+	for i := 0; i < len(g6); i++ {
+		seed = (seed ^ uint64(g6[i])) * 1099511628211
+	}
+	seed += uint64(len(picks))
+	r := hx.NewRng(seed)
+	p := r.Perm(n) // vertex i of the copy is vertex p[i] of g
+	inv := cx.Inverse(p)
+	h := g.Relabel(p)
+	cls2 := cx.RelabelClasses(cls, p, 1)
+	nbG, nbH := g.Neighbours(), h.Neighbours()
+	var msg string
+	if m := guard(func() {
+		orders, divs, _ := graph.VerifRefine(n, nbG, copyClasses(cls), picks)
+		var picks2 []int
+		for t := 0; t < len(orders); t++ {
+			o2, d2, _ := graph.VerifRefine(n, nbH, copyClasses(cls2), picks2)
+			if len(o2) != t+1 {
+				msg = fmt.Sprintf("refinement of %s and of its copy relabelled by %v stop at different stages (%d, %d)", g6, p, t+1, len(o2))
+				return
+			}
+			if !sameCells(orders[t], divs[t], o2[t], d2[t], p) {
+				msg = fmt.Sprintf("after refinement %d of %s (classes %s, picks %v): partition %v|%v, but the copy relabelled by %v gives %v|%v, which is not its image", t, g6, cx.ClassesString(cls), picks, orders[t], divs[t], p, o2[t], d2[t])
+				return
+			}
+			if t >= len(picks) || t+1 >= len(orders) {
+				break
+			}
+			// the vertex picked at stage t in the original, and its index in the target cell of the copy
+			start := targetStart(divs[t])
+			if start < 0 {
+				break
+			}
+			v := orders[t][start+picks[t]]
+			start2 := targetStart(d2[t])
+			idx := -1
+			for i := start2; i >= 0 && i < n; i++ {
+				if o2[t][i] == inv[v] {
+					idx = i - start2
+					break
+				}
+			}
+			if idx < 0 {
+				msg = fmt.Sprintf("vertex %d picked at stage %d of %s has no image in the target cell of the copy relabelled by %v", v, t, g6, p)
+				return
+			}
+			picks2 = append(picks2, idx)
+		}
+	}); m != "" {
+		return "panic in the refinement of a relabelled copy of " + g6 + ": " + m
+	}
+	return msg
+}
+
+// rankPicksToPositions translates picks given as ranks (k-th smallest vertex of the first
+// non-singleton cell) into positions inside that cell as the hook VerifRefine wants them, by
+// running the refinement stage by stage.  The library keeps every cell ascending, so on the
+// unchanged tree this is the identity; it makes the observation independent of the order
+// inside a cell, which the property does not determine.
+func rankPicksToPositions(n int, nb [][]int, cls [][]int, picks []int) []int {
+	var pos []int
+	for t := 0; t < len(picks); t++ {
+		orders, divs, _ := graph.VerifRefine(n, nb, copyClasses(cls), pos)
+		if len(orders) != t+1 {
+			break
+		}
+		start := targetStart(divs[t])
+		if start < 0 {
+			break
+		}
+		end := start
+		for _, d := range divs[t] {
+			if d > start {
+				end = d
+				break
+			}
+		}
+		if picks[t] < 0 || picks[t] >= end-start {
+			pos = append(pos, picks[t]) // out of range: the hook stops here as the model does
+			break
+		}
+		cell := cx.SortedCopy(orders[t][start:end])
+		v := cell[picks[t]]
+		for i := start; i < end; i++ {
+			if orders[t][i] == v {
+				pos = append(pos, i-start)
+			}
+		}
+	}
+	return pos
+}
+
+func copyClasses(cls [][]int) [][]int {
+	if cls == nil {
+		return nil
+	}
+	c2 := make([][]int, len(cls))
+	for i := range cls {
+		c2[i] = append([]int(nil), cls[i]...)
+	}
+	return c2
+}
+
+// start of the first cell with more than one element, or -1
+func targetStart(divs []int) int {
+	start := 0
+	for _, d := range divs {
+		if d-start > 1 {
+			return start
+		}
+		start = d
+	}
+	return -1
+}
+
+// the cells (order2, divs2) of the copy are, cell by cell, the images of the cells (order, divs): vertex i of the copy is vertex p[i]
+func sameCells(order, divs, order2, divs2, p []int) bool {
+	if len(divs) != len(divs2) || len(order) != len(order2) {
+		return false
+	}
+	cellOf := make([]int, len(order))
+	start := 0
+	for c, d := range divs {
+		if divs2[c] != d {
+			return false
+		}
+		for i := start; i < d; i++ {
+			cellOf[order[i]] = c
+		}
+		start = d
+	}
+	start = 0
+	for c, d := range divs2 {
+		for i := start; i < d; i++ {
+			if cellOf[p[order2[i]]] != c {
+				return false
+			}
+		}
+		start = d
+	}
+	return true
 }
 
 // fastAll runs all n! relabellings through CanonicalIsomorphAllocated with one ordered partition
@@ -521,8 +674,10 @@ func execRefine(fam, g6 string, toks []string) hx.Result {
 				c2[i] = append([]int(nil), cls[i]...)
 			}
 		}
-		orders, divs, drained := graph.VerifRefine(n, nb, c2, picks)
-		var parts []string
+		// picks name the k-th smallest vertex of the target cell; the hook wants its position
+		pos := rankPicksToPositions(n, nb, c2, picks)
+		orders, divs, drained := graph.VerifRefine(n, nb, copyClasses(c2), pos)
+		var parts, sets []string
 		cells := 0
 		for i := range orders {
 			if !cx.IsPerm(orders[i], n) && len(viol) < 2 {
@@ -533,11 +688,27 @@ func execRefine(fam, g6 string, toks []string) hx.Result {
 			}
 			parts = append(parts, cx.PermString(orders[i])+":"+cx.PermString(divs[i]))
 			cells = len(divs[i])
+			// projected: the cells as sets; the order inside a cell is not determined by the property
+			var cs []string
+			start := 0
+			for _, d := range divs[i] {
+				if d < start || d > len(orders[i]) {
+					break
+				}
+				cs = append(cs, cx.PermString(cx.SortedCopy(orders[i][start:d])))
+				start = d
+			}
+			sets = append(sets, strings.Join(cs, "|"))
 		}
-		return strings.Join(parts, " / "), cells
+		return strings.Join(sets, " / ") + " ## " + strings.Join(parts, " / "), cells
 	}
 	od, cells := run(g.Dense())
 	os, _ := run(g.Sparse())
+	if len(viol) == 0 {
+		if msg := refineEquivariance(g, g6, cls, picks); msg != "" {
+			viol = append(viol, hx.Fail("C01:refine-noninvariant:"+g6, "%s", msg))
+		}
+	}
 	if od != os && len(viol) < 2 {
 		viol = append(viol, hx.Fail("C01:refine-representation:"+g6, "refinement of %s differs between the dense (%s) and the sparse (%s) neighbourhoods", g6, od, os))
 	}
@@ -559,7 +730,7 @@ func execRefine(fam, g6 string, toks []string) hx.Result {
 
 // modelLeafBudget: the extracted model enumerates the whole unpruned tree; cases whose tree has
 // more leaves than this are oracle-only.
-const modelLeafBudget = 800
+const modelLeafBudget = 2000
 
 func modeFor(g *cx.G) string {
 	if _, _, ok := cx.RefCanon(g, nil, modelLeafBudget); ok {
@@ -629,7 +800,7 @@ func gen(g *hx.Gen) {
 	}
 	g.Exhaustive("refinement alone: labelled graphs on 4 vertices x all 75 ordered partitions into vertex classes")
 
-	rl := g.Pick(100, 300)
+	rl := g.Pick(150, 300)
 	randTok := func() string { return fmt.Sprintf("rand:%d:%d", g.Rng.U64()>>1, rl) }
 	// structured families
 	str := cx.Structured(g.Pick(12, 17))
@@ -640,10 +811,10 @@ func gen(g *hx.Gen) {
 		}
 	}
 	// graphs on 8 vertices x all 8! relabellings: every structured graph on 8 vertices of the
-	// quick list up to 60, in the thorough tier all of them and those on 9 vertices
+	// quick list up to 150, in the thorough tier all of them and those on 9 vertices
 	cnt8 := 0
 	for _, ng := range str {
-		if ng.G.N == 8 && (g.Thorough() || cnt8 < 60) {
+		if ng.G.N == 8 && (g.Thorough() || cnt8 < 150) {
 			emit(ng.Family, ng.G, "all")
 			cnt8++
 		}
@@ -651,12 +822,12 @@ func gen(g *hx.Gen) {
 			emit(ng.Family, ng.G, "all")
 		}
 	}
-	for cnt8 < 60 {
+	for cnt8 < 150 {
 		emit("regular", cx.RandomRegular(g.Rng, 8, 3+g.Rng.Intn(2)), "all")
 		cnt8++
 	}
 	// perturbed symmetric graphs: one or two pairs flipped
-	for i := 0; i < g.Pick(500, 3000); i++ {
+	for i := 0; i < g.Pick(1500, 4000); i++ {
 		ng := str[g.Rng.Intn(len(str))]
 		if ng.G.N < 4 {
 			continue
@@ -669,7 +840,7 @@ func gen(g *hx.Gen) {
 	}
 	// random graphs at several densities, random regular graphs, random trees, random unions of equal components
 	dens := [][2]int{{1, 10}, {1, 4}, {1, 2}, {3, 4}, {9, 10}}
-	for i := 0; i < g.Pick(450, 4000); i++ {
+	for i := 0; i < g.Pick(1200, 4000); i++ {
 		n := g.Rng.Range(5, g.Pick(12, 16))
 		switch g.Rng.Intn(5) {
 		case 0, 1:
@@ -690,6 +861,17 @@ func gen(g *hx.Gen) {
 			}
 			emit("union", u.Relabel(g.Rng.Perm(u.N)), randTok())
 		}
+	}
+	if !g.Thorough() {
+		// one representative of every isomorphism class on 7 vertices x all 5040 relabellings
+		reps := cx.ClassReps(7)
+		if len(reps) != classCount[7] {
+			g.Note(fmt.Sprintf("ClassReps(7) produced %d graphs, expected %d", len(reps), classCount[7]))
+		}
+		for _, r := range reps {
+			emit("classrep", r, "all")
+		}
+		g.Exhaustive("one representative of every isomorphism class on 7 vertices (1044) x all 7! relabellings")
 	}
 	if g.Thorough() {
 		// one representative of every isomorphism class (generated independently of the
